@@ -94,6 +94,37 @@ CLAIMED["C20"] = dict(
     note="Trusted: TLC, the gate hooks (build tag verif), the Go race detector as monitor, harness plumbing. Real interleavings are sampled and steered only at the gate points; three sync.Once sites have no hook (system roots, randutil, purego sm2p256B) and are covered by results and the race detector only.",
     technique="TLA+ model of lazy initialisation checked by TLC + schedule replay through gate hooks + recorded-trace validation + race detector")
 
+CLAIMED["C08"] = dict(
+    category="model_checking",
+    text="obj/Sm2Kx is an explicit two-party protocol machine (network plus active adversary) on which TLC checks Agreement, BadPointRejected, BadConfirmRejected, FailClosed and CrossImpl with exact GB/T 32918.3 values (Annex B example asserted through the machine). Every explored run - honest runs, every single adversary alteration at every protocol point, and the special cases t = 0, V = O and doubling in the peer sum - is replayed through sm2.KeyExchange with scripted randomness and through ecdh ECDH/SM2MQV/SM2SharedKey/SM2ZA in 5 dispatch configurations; recorded real runs are validated event by event by Trace_Sm2Kx.",
+    design_ref="DESIGN.md section 4, C08",
+    note="Trusted: TLC, BigNat overrides, SM2/EC/SM3 TLA+ (KAT-pinned), replayer/recorder plumbing. Scalars and parameters are combined as a strength-2 orthogonal array; at most one adversary alteration per run (two on 7 scenarios in thorough); ecdh cannot represent r = n-1.",
+    technique="TLA+ protocol state machine with adversary checked by TLC + two-way trace conformance against both implementations")
+CLAIMED["C13"] = dict(
+    category="exploration",
+    text="TLC enumerates every single mutation (truncate, substitute, append, set-length, set-tag, delete, duplicate, nest up to 64 deep, clear, indefinite-form, resize; pairs for small artefacts in thorough) of 123 library-made artefacts of 46 types plus every byte string of length <= 4 (quick) / 5 (thorough) over 14 BER-significant octets; each input is fed under recover(), guard-paged and with a 10 s watchdog, to the type's entry points and to 31 universal parsers (103 rows) in three configurations; the only allowed outcomes are value or error. A TLA+ transcription of the pkcs7/ber.go index arithmetic is checked against the X.690 grammar and its out-of-slice predictions are compared with the real code.",
+    design_ref="DESIGN.md section 4, C13",
+    note="Structured exhaustive mutation driven by a TLA+ mutation model, not coverage-guided fuzzing (no fuzzing engine in this technique family); inputs more than one (small artefacts: two) mutation away from a valid artefact are not reached; memory safety is seen only through Go bounds checks and a guard page behind the input.",
+    technique="TLA+ mutation model and BER grammar/transcription checked by TLC + replay of every enumerated input against ~100 entry points")
+CLAIMED["C14"] = dict(
+    category="model_checking",
+    text="obj/KeyContainer.tla states C14 as an outcome algebra (Same | Err | Different) with invariants RoundTrip, NeverDifferent, AuthRejects, WrongSecretNeverKey, RangeRefused. TLC enumerates key kind x scalar class x container x every registered cipher, KDF, PBES1 variant and PEM cipher (pairwise cover in quick, full product in thorough), every single-byte alteration of the three authenticated containers by region, wrong passwords with sweeps, wrong unwrapping keys and out-of-range scalars; each transition is replayed through the library's Marshal*/Parse* functions under default / purego / cpu.aes=off and must yield an outcome in the set the model allows; raw scalar encodings and the public points of SM2-curve and P-256 keys are exact.",
+    design_ref="DESIGN.md section 4, C14",
+    note="Symbolic: byte contents (salts, IVs, random scalars) are seeded; 10 masks per byte; the region map of the authenticated containers is part of the trusted base; KDF work-factor header octets are excluded (attacker-controlled cost).",
+    technique="TLA+ symbolic state machine (outcome algebra) checked by TLC + spec-to-code trace replay")
+CLAIMED["C15"] = dict(
+    category="model_checking",
+    text="TLC explores abstract PKIs (102 topologies, at most 2 of 36 defect/variation kinds, 5-8 requests each) and checks on the model that a transcription of the verifier's algorithm returns only chains of the declarative ValidChains (signature link, names, CA flag and certSign, validity of every element, path length, DNS/IP/e-mail/URI name constraints, EKU nesting, host name). Every PKI is materialised with smx509.CreateCertificate and Certificate.Verify must return only chains in that set: an error when it is empty, a chain for undamaged linear PKIs. A second Dolev-Yao machine drives create -> parse -> check, key substitution and every byte change of TBS/signature for certificates, CSRs, CFCA CSRs, CRLs and the CSRResponse container over generated template classes x SM2, ECDSA, RSA and Ed25519; both are replayed under the default and purego builds.",
+    design_ref="DESIGN.md section 4, C15",
+    note="Symbolic: signatures are ideal; after a byte change both parse error and verify error are admitted; Go's extra policy (signature budget, SHA-1 policy, unhandled critical extensions, directory-name constraints) is outside the soundness statement; completeness only for undamaged linear PKIs.",
+    technique="TLA+ symbolic PKI model (ValidChains + verifier transcription) checked by TLC + materialised replay against smx509")
+CLAIMED["C17"] = dict(
+    category="model_checking",
+    text="TLC explores DrbgObj/PrngObj (SP 800-90A Hash/HMAC/CTR-df mechanisms + GM/T 0105 variants, operators pinned by NIST CAVP vectors) and computes exact expected bytes for SM3/HMAC-SM3/SM4 (NIST+GM) and SHA-256/HMAC-SHA-256/AES-128/192/256; every transition of a (reseed_counter, gate, last-k-ops) cover, long scripted and (thorough) all gate-crossing histories <= 11 ops, all envelope sequences to depth 10/11 (also SHA-512), a real 6.5 s GM time scenario, and the reader wrapper under entropy faults at every call index are replayed against the real API in 4 dispatch configurations; seeded recorded histories on real objects are validated back against the spec (Trace_Drbg). RefusalPure, GateExact, ReseedRestores, CounterBound, LenChecks, ReadExact are checked on the model.",
+    design_ref="DESIGN.md section 4, C17",
+    note="Trusted: TLC, TLA+ Drbg/HMAC/SHA256/AES/SM3/SM4 (CAVP / FIPS / GB-T pinned), replayer/recorder plumbing. GM/T 0105 differences are taken from the package documentation; level-1 intervals (2^20, 60/600 s) are not run; which of two applicable errors is returned is not compared.",
+    technique="TLA+ executable specification + TLC history exploration + two-way trace conformance")
+
 NOT_BUILT = "not built yet (in progress; see DESIGN.md section 9 build order)"
 NA = {}
 
